@@ -375,11 +375,98 @@ def build_T18s(tree):
         ast.fix_missing_locations(s)
     if conds != ['int(item.AnnotationGroupNumber)==int(number)', 'str(item.AnnotationGroupUID)==str(uid)']:
         raise Unsupported(f'get_annotation_group: match conditions changed: {conds}')
+    filt_text, filt_sha = _build_filter(tree)
     text = translate_block(blk, 'groupLookupDecision', [('number', 'optint'), ('uid', 'optint')], {'len(items)': ('int', 'nItems')},
                            doc='`get_annotation_group`: TypeError without a key; 1 = the groups whose number matches are used, '
                                '2 = the groups whose uid matches (`uid` stands for any non-None uid); ValueError unless exactly one '
                                '(`nItems` = number of matching items of the branch taken)')
-    return text, span_sha(body)
+    return text + '\n\n' + filt_text, span_sha(body) + filt_sha[:16]
+
+
+def _build_filter(tree):
+    """body of the `for item in self.AnnotationGroupSequence` loop of `get_annotation_groups` as a Boolean decision over
+    `has_<criterion>` (criterion given), `eq_<criterion>` (its comparison with the item), `has_alg_id`."""
+    fn = find_func(tree, 'MicroscopyBulkSimpleAnnotations.get_annotation_groups')
+    loops = [n for n in fn.body if isinstance(n, ast.For) and _norm(n.iter) == 'self.AnnotationGroupSequence' and _norm(n.target) == 'item']
+    if len(loops) != 1:
+        raise Unsupported('get_annotation_groups: loop over self.AnnotationGroupSequence not found')
+    body = loops[0].body
+    crit = [a.arg for a in fn.args.args if a.arg != 'self']
+    table = []      # (criterion, what it is compared with)
+    state = {'final': False}
+
+    def criterion_of(expr):
+        """eq(<lhs>, <crit>) or <lhs> == <crit>  ->  (crit, lhs text)"""
+        if isinstance(expr, ast.Call) and _norm(expr.func) == 'eq' and len(expr.args) == 2 and isinstance(expr.args[1], ast.Name):
+            return expr.args[1].id, ast.unparse(expr.args[0])
+        if isinstance(expr, ast.Compare) and len(expr.ops) == 1 and isinstance(expr.ops[0], ast.Eq) and isinstance(expr.comparators[0], ast.Name):
+            return expr.comparators[0].id, ast.unparse(expr.left)
+        raise Unsupported('get_annotation_groups: unrecognised comparison ' + ast.unparse(expr)[:60])
+
+    class F(ast.NodeTransformer):
+        def visit_Assign(self, node):
+            t = _norm(node.targets[0])
+            if t == 'matches':
+                if _norm(node.value) != '[]':
+                    raise Unsupported('matches is no longer initialised to []')
+                return ast.copy_location(ast.parse('all_match = True').body[0], node)
+            if t == 'is_match':
+                c, lhs = criterion_of(node.value)
+                if c not in crit:
+                    raise Unsupported(f'comparison with {c}, which is not a search criterion')
+                table.append((c, lhs))
+                state['last'] = c
+                return None
+            if t == 'algorithm_identification':
+                if _norm(node.value) != 'item.algorithm_identification':
+                    raise Unsupported('algorithm_identification is no longer item.algorithm_identification')
+                return None
+            raise Unsupported('get_annotation_groups: unexpected assignment ' + ast.unparse(node)[:60])
+
+        def visit_Expr(self, node):
+            v = node.value
+            if isinstance(v, ast.Call) and _norm(v.func) == 'matches.append' and len(v.args) == 1:
+                a = _norm(v.args[0])
+                if a == 'is_match':
+                    if not state.get('last'):
+                        raise Unsupported('matches.append(is_match) without a preceding comparison')
+                    c = state.pop('last')
+                    return ast.copy_location(ast.parse(f'all_match = all_match and eq_{c}').body[0], node)
+                if a == 'False':
+                    return ast.copy_location(ast.parse('all_match = False').body[0], node)
+            if isinstance(v, ast.Call) and _norm(v.func) == 'groups.append' and _norm(v.args[0]) == 'item':
+                return ast.copy_location(ast.parse('result = True').body[0], node)
+            raise Unsupported('get_annotation_groups: unexpected statement ' + ast.unparse(node)[:60])
+
+        def visit_If(self, node):
+            if _norm(node.test) in ('np.all(matches)orlen(matches)==0', 'len(matches)==0ornp.all(matches)'):
+                if len(node.body) != 1 or node.orelse or _norm(node.body[0]) != 'groups.append(item)':
+                    raise Unsupported('get_annotation_groups: final selection changed shape')
+                state['final'] = True
+                return ast.copy_location(ast.parse('return all_match').body[0], node)
+            self.generic_visit(node)
+            return node
+    subst = {f'{c} is not None': f'has_{c}' for c in crit}
+    subst['algorithm_identification is not None'] = 'has_alg_id'
+    blk = []
+    for st in _fresh(body, subst):
+        r = F().visit(st)
+        if r is not None:
+            blk.append(r)
+    for s2 in blk:
+        ast.fix_missing_locations(s2)
+    if not state['final']:
+        raise Unsupported('get_annotation_groups: selection `np.all(matches) or len(matches) == 0` not found')
+    params = []
+    for c in crit:
+        params += [(f'has_{c}', 'bool'), (f'eq_{c}', 'bool')]
+    params.append(('has_alg_id', 'bool'))
+    text = translate_block(blk, 'groupFilterDecision', params, {},
+                           doc='loop body of `get_annotation_groups`: is the item selected?  `has_<c>`: criterion given, `eq_<c>`: '
+                               'its comparison with the item holds, `has_alg_id`: the item has an algorithm identification')
+    tab = lean_table('filterCompares', 'List (String × String)', [f'({_s(c)}, {_s(l)})' for c, l in table],
+                     doc='criterion -> the expression of the item it is compared with')
+    return tab + '\n\n' + text, span_sha(body)
 
 
 TARGETS = {
